@@ -500,6 +500,8 @@ def run(ctx):
     state_roundtrip(ctx, repo.cls('extinction.extinction', 'Extinction'))
     check_inputs(ctx)
     common.check_ownership(ctx)
+    # 'each record equals what the object interface returns ... including metadata': a result's metadata is its own (no object shared by every result through the class)
+    common.check_shared_class_state(ctx, [('fit_info', 'FitInfo'), ('fit_info', 'FitInfoMeta'), ('fit', 'Fitter')])
 
 
 FT = 'sedfitter/fit.py'
